@@ -11,6 +11,9 @@ from .values import *
 from .world import World, Contract, kind_of_annotation, parse_kind
 
 MAX_INLINE_DEPTH = 60
+import os as _os
+import sys
+DEBUG_DUMP = _os.environ.get("PYVC_DUMP")
 
 
 class Env:
@@ -140,10 +143,15 @@ class Run:
         self.solver.push()
         self.solver.set('timeout', self.feas_timeout_ms)
         self.solver.add(cond)
+        if DEBUG_DUMP:
+            with open(DEBUG_DUMP, 'w') as fh:
+                fh.write(self.solver.to_smt2())
         r = self.solver.check()
         self.solver.pop()
         self.solver.set('timeout', self.timeout_ms)
         self.solver_secs += time.time() - t0
+        if DEBUG_DUMP and time.time() - t0 > 1.0:
+            sys.stderr.write('SLOW feasibility %.1fs %s: %s\n' % (time.time() - t0, r, str(cond)[:300]))
         return r != z3.unsat
 
     def choose(self, cond):
@@ -181,6 +189,9 @@ class Run:
         t0 = time.time()
         self.solver.push()
         self.solver.add(z3.Not(claim))
+        if DEBUG_DUMP:
+            with open(DEBUG_DUMP + '.prove', 'w') as fh:
+                fh.write(self.solver.to_smt2())
         r = self.solver.check()
         model = None
         detail = ''
